@@ -344,7 +344,7 @@ MUTANTS = [
   {'name': 'seeded-C01-a', 'patch': 'C01-a/patch.diff', 'expect': ('R1.6', 'index_transaction_sats', 'pending is appended before the rest')},
   {'name': 'seeded-C01-b', 'patch': 'C01-b/patch.diff', 'expect': ('R1.5', 'index_utxo_entries', 'merged(existing, new)')},
 
-  {'name': 'transactions indexed in block order (coinbase first, before the fees exist)', 'file': _U, 'old': '      .enumerate()\n      .skip(1)\n      .chain(block.txdata.iter().enumerate().take(1))\n', 'new': '      .enumerate()\n', 'expect': ('R1.2', 'index_utxo_entries', '')},
+  {'name': 'transactions indexed in block order (coinbase first, before the fees exist)', 'group': 'loop-shape', 'file': _U, 'old': '      .enumerate()\n      .skip(1)\n      .chain(block.txdata.iter().enumerate().take(1))\n', 'new': '      .enumerate()\n', 'expect': ('R1.2', 'index_utxo_entries', '')},
   {'name': 'fees of ordinary transactions routed to the lost sats instead of the coinbase', 'file': _U, 'old': '          leftover_sat_ranges = &mut coinbase_inputs;', 'new': '          leftover_sat_ranges = &mut lost_sat_ranges;', 'expect': ('R1.3', 'index_utxo_entries', '')},
   {'name': 'subsidy range never offered to the coinbase', 'file': _U, 'old': '        coinbase_inputs.extend(SatRange::store((start.n(), (start + h.subsidy()).n())));\n', 'new': '        let _ = start;\n', 'expect': ('R1.1', 'index_utxo_entries', '')},
   {'name': 'duplicate txid keeps the old output', 'file': _U, 'old': '        utxo_cache.insert(OutPoint { txid: *txid, vout }, output_utxo_entry);', 'new': '        utxo_cache.entry(OutPoint { txid: *txid, vout }).or_insert(output_utxo_entry);', 'expect': ('R1.4', 'index_utxo_entries', '')},
